@@ -16,6 +16,7 @@ from sourmash.lca.command_classify import classify_signature
 from sourmash.tax.tax_utils import LineagePair, LineageTree
 
 TAXLIST = list(lca_utils.taxlist())
+MOLTYPES = ["DNA", "protein", "dayhoff", "hp"]
 TMPROOT = os.environ.get("VERIF_TMP") or os.path.join(
     os.path.dirname(os.path.dirname(os.path.dirname(os.path.abspath(__file__)))), ".build", "tmp")
 
@@ -32,14 +33,65 @@ def rank_index(r):
 
 
 def taxon(n):
-    return "" if n == 0 else f"t{n}"
+    return "" if n == 0 else ("unassigned" if n == 1000 else f"t{n}")
 
 
 def taxon_id(s):
     if not s:          # "" or None
         return 0
+    if s == "unassigned":
+        return 1000
     assert s[0] == "t", s
     return int(s[1:])
+
+
+def run_lca_index(tmpdir, n, opts, sigs, csvtok):
+    """`sourmash lca index` through the real argument parser, one signature per file, --report always given;
+    returns (loaded database or None, observation)"""
+    import csv as _csv
+    import re as _re
+    from sourmash.cli import get_parser
+    from sourmash.lca.command_index import index as lca_index
+    d = os.path.join(tmpdir, f"index{n}")
+    os.makedirs(d)
+    files = []
+    for i, ss in enumerate(sigs):
+        fn = os.path.join(d, f"sig{i}.sig")
+        with open(fn, "w") as fp:
+            sourmash.save_signatures([ss], fp)
+        files.append(fn)
+    csvfn = os.path.join(d, "tax.csv")
+    with open(csvfn, "w", newline="") as fp:
+        w = _csv.writer(fp)
+        if csvtok != "-":
+            for r in csvtok.split("/"):
+                w.writerow([] if r == "!" else [c.replace("~", " ") for c in r.split(";")])
+    ws = opts.split(",")
+    num = lambda pre, dflt: next((int(x[len(pre):]) for x in ws if x.startswith(pre) and x[len(pre):].isdigit()), dflt)
+    mol = num("m", 0)
+    out = os.path.join(d, "out.lca.json")
+    rep = os.path.join(d, "report.txt")
+    argv = ["lca", "index", csvfn, out] + files + ["-k", str(num("k", 21)), "--scaled", str(num("s", 1)),
+                                                    "-C", str(num("C", 2)), "--report", rep, "-q"]
+    argv += {0: ["--dna"], 1: ["--protein"], 2: ["--dayhoff"], 3: ["--hp"]}[mol]
+    for flag, arg in (("nh", "--no-headers"), ("f", "-f"), ("si", "--split-identifiers"),
+                      ("kv", "--keep-identifier-versions"), ("rt", "--require-taxonomy"),
+                      ("fm", "--fail-on-missing-taxonomy")):
+        if flag in ws:
+            argv.append(arg)
+    args = get_parser().parse_args(argv)
+    try:
+        lca_index(args)
+    except SystemExit as e:
+        return None, f"exit {e.code}"
+    db = LCA_Database.load(out)
+    if os.path.exists(rep):
+        txt = open(rep).read()
+        nums = [_re.search(pat + r": (\d+)", txt).group(1) for pat in
+                ("Duplicate signatures", "Unused identifiers", "No lineage provided for these identifiers",
+                 "No signatures found for these identifiers", "Unused lineages")]
+        return db, "ok report=" + ",".join(nums)
+    return db, "ok report=-"
 
 
 def name_of(tok):
@@ -118,15 +170,26 @@ def main():
                     out.write("#\n")
                     continue
                 if op == "sig":
-                    r, name, filename, scaled, num, ksize, hs = a
-                    mh = MinHash(int(num), int(ksize), scaled=int(scaled))
+                    r, name, filename, scaled, num, ksize, hs = a[:7]
+                    opts = dict(t.split("=", 1) for t in a[7:])
+                    mol = int(opts.get("mol", 0))
+                    mh = MinHash(int(num), int(ksize), scaled=int(scaled), is_protein=(mol == 1),
+                                 dayhoff=(mol == 2), hp=(mol == 3))
                     mh.add_many(nat_list(hs))
-                    S[int(r)] = SourmashSignature(mh, name=name_of(name), filename=name_of(filename))
-                    res = "ok " + join_or(",", [str(h) for h in sorted(mh.hashes)])
+                    ss = SourmashSignature(mh, name=name_of(name), filename=name_of(filename))
+                    if "md5" in opts and opts["md5"] != ss.md5sum():
+                        res = "err Md5Mismatch"          # the generator's md5 (what the model is given) must be the real one
+                    else:
+                        S[int(r)] = ss
+                        res = "ok " + join_or(",", [str(h) for h in sorted(mh.hashes)])
                 elif op == "db":
-                    d, ksize, scaled = map(int, a)
-                    D[d] = LCA_Database(ksize, scaled)
+                    d, ksize, scaled = map(int, a[:3])
+                    opts = dict(t.split("=", 1) for t in a[3:])
+                    D[d] = LCA_Database(ksize, scaled, MOLTYPES[int(opts.get("mol", 0))])
                     res = "ok"
+                elif op == "info":
+                    db = D[int(a[0])]
+                    res = f"ok ksize={db.ksize} scaled={db.scaled} mol={MOLTYPES.index(db.moltype)}"
                 elif op == "ins":
                     d, r = int(a[0]), int(a[1])
                     ident = None if a[2] == "-" else name_of(a[2])
@@ -203,6 +266,11 @@ def main():
                     mh.add_many(nat_list(a[3]))
                     lin, status = classify_signature(SourmashSignature(mh, name="q"), dbs, thr, maj)
                     res = f"ok {status} {show_lineage(lin)}"
+                elif op == "index":
+                    nfile[0] += 1
+                    db, res = run_lca_index(tmpdir, nfile[0], a[1], [S[i] for i in nat_list(a[2])], a[3])
+                    if db is not None:
+                        D[int(a[0])] = db
                 elif op == "pop":
                     lin = lineage_of(a[1]) or ()
                     res = "ok " + show_lineage(lca_utils.pop_to_rank(lin, rank_name(int(a[0]))))
